@@ -1796,6 +1796,12 @@ package ucfg
 //@ ghost func derefAny(i interface{}) interface{}
 //@ axiom [derefany] forall i interface{} :: i == nil ==> derefAny(i) == nil
 //@ axiom [derefany] forall i interface{} :: i != nil && anyKind(i) != 22 && anyKind(i) != 20 ==> derefAny(i) == i
+// derefValue (on boxed values) and chaseValue (on handles) walk the same pointers: where the walk ends in a value,
+// the handle chaseValue returns has the kind of that value; where it ends in a nil pointer, the handle is that pointer
+//@ axiom [derefchase] forall i interface{} :: derefAny(i) != nil ==> rvKind(chased(rvOf(i))) == anyKind(derefAny(i))
+//@ axiom [derefchase] forall i interface{} :: rvKind(rvOf(i)) == anyKind(i)
+//@ axiom [derefchase] forall i interface{} :: rvKind(rvOf(i)) == 22 && rvNil(rvOf(i)) ==> derefAny(i) == nil
+//@ axiom [derefchase] forall i interface{} :: i != nil && derefAny(i) == nil ==> rvKind(chased(rvOf(i))) == 22 || rvKind(chased(rvOf(i))) == 20
 
 //@ func validatePositive :: v, _ -> result
 //@ props C04
@@ -1858,6 +1864,8 @@ package ucfg
 //@ ensures [int] v != nil && typeof(v) != time.Duration && 2 <= anyKind(v) && anyKind(v) <= 6 ==> (result == nil) == (anyInt(v) != 0)
 //@ ensures [uint] v != nil && typeof(v) != time.Duration && 7 <= anyKind(v) && anyKind(v) <= 11 ==> (result == nil) == (anyUint(v) != 0)
 //@ ensures [float] v != nil && typeof(v) != time.Duration && (anyKind(v) == 13 || anyKind(v) == 14) ==> (result == nil) == !(anyFloat(v) == 0)
+//@ uses derefany derefchase boxkinds
+//@ ensures [string_behind_pointers] typeof(derefAny(v)) == string ==> (result == nil) == (derefAny(v).(string) != "")
 
 // recValid(v): the recursive validation of the value behind a reflect handle accepts it (validate tags of nested
 // fields, Validate() methods). Assumed to be a function of the handle while one container is traversed (elements
@@ -2228,6 +2236,9 @@ package ucfg
 //@ ensures [string] typeof(v) == string ==> (result == nil) == (v.(string) != "")
 //@ ensures [nil_slice] v != nil && typeof(v) != string && typeof(v) != regexp.Regexp && (rvKind(rvOf(v)) == 23 || rvKind(rvOf(v)) == 21) && rvNil(rvOf(v)) ==> result != nil
 //@ ensures [empty_list] v != nil && typeof(v) != string && typeof(v) != regexp.Regexp && (rvKind(rvOf(v)) == 17 || (rvKind(rvOf(v)) == 23 && !rvNil(rvOf(v)))) ==> (result == nil) == (rvLen(rvOf(v)) != 0)
+//@ uses derefany derefchase
+//@ ensures [int_behind_pointers] derefAny(v) != nil && typeof(derefAny(v)) != time.Duration && 2 <= anyKind(derefAny(v)) && anyKind(derefAny(v)) <= 6 ==> (result == nil) == (anyInt(derefAny(v)) != 0)
+//@ ensures [string_behind_pointers] typeof(derefAny(v)) == string ==> (result == nil) == (derefAny(v).(string) != "")
 
 // ---------------------------------------------------------------- C13: lists are merged according to the policy in force
 
